@@ -7,7 +7,7 @@ import time
 from typing import Any, Dict, List, Optional
 
 VERIF = os.path.dirname(os.path.dirname(os.path.abspath(__file__)))
-EVIDENCE_DIR = os.path.join(VERIF, "evidence")
+EVIDENCE_DIR = os.environ.get("VERIF_EVIDENCE_DIR") or os.path.join(VERIF, "evidence")   # (override used by the self-test only)
 KNOWN_FILE = os.path.join(VERIF, "known_findings.json")
 
 
